@@ -19,7 +19,11 @@
    behind the current lock queue) -- operator Grant, recursive over the state record.
 
    Environment actions (the only nondeterminism): Request(j), Notify(j, s) (a call of notify_status entering the
-   lock queue), EvalDone (completion of the lock holder's get_available_locations).
+   lock queue), EvalDone (completion of the lock holder's get_available_locations), UsageDone / UsageFail (completion /
+   failure of the usage probe of a releasing notifier, when GateUsage).
+   Engine = "contract" is the hostile environment of C11: besides FIREABLE -> CANCELLED/FAILED it sends ROLLBACK to a job
+   that still HOLDS its resources (FIREABLE -> ROLLBACK, RUNNING -> ROLLBACK, no FAILED/RECOVERY in between): the
+   release and the ROLLBACK bookkeeping (list removal, locations cleared) happen in ONE notify_status body.
 
    Hardware is [c, m, s, u]: cores, memory, s[mount] reserved size, u[mount] measured usage of the job's
    directories that live under that mount (what get_storage_usages will report at release time).          *)
@@ -41,6 +45,9 @@ CONSTANTS
   MaxGen,    \* how many times a job may be requested (1 + re-schedules after ROLLBACK)
   MaxDup,    \* how many duplicated notifications (same status again) per job
   Engine,    \* "engine": statuses the engine/failure manager send; "contract": + FIREABLE->FAILED/CANCELLED
+  UsageFaults, \* TRUE (needs GateUsage): the parked usage measurement may also FAIL (connector fault: the `find` command of
+             \* remotepath._size ends with a non-zero status -> WorkflowExecutionException caught by _free_resources):
+             \* environment action UsageFail = the reservation is released with zero measured usage
   GateUsage  \* TRUE: the storage-usage measurement of _free_resources (connector I/O under the lock) is a suspension
              \* point of its own: the notifier parks holding the lock (status already changed, nothing released yet)
              \* and the environment action UsageDone completes the body; FALSE: notify_status is one atomic section
@@ -143,22 +150,25 @@ Allocate(S, j, t) ==
 
 \* _free_resources: level by level; job_hardware is the allocation's hardware (requirement of the FIRST selected
 \* location's key) and is re-bound once per wrapped location
-RECURSIVE FreeSeq(_, _, _)
-FreeSeq(S, locs, h) ==
+\* ok = FALSE: the usage probe failed (`except WorkflowExecutionException: storage_usage = Hardware()`): the reservation
+\* is subtracted all the same, nothing is added back
+RECURSIVE FreeSeq(_, _, _, _)
+FreeSeq(S, locs, h, ok) ==
   IF locs = <<>> THEN S
-  ELSE FreeSeq([S EXCEPT !.res[LName[Head(locs)]] = HAdd(HSub(@, h), UsageOf(h))], Tail(locs), h)
+  ELSE FreeSeq([S EXCEPT !.res[LName[Head(locs)]] = HAdd(HSub(@, h), IF ok THEN UsageOf(h) ELSE Zero)], Tail(locs), h, ok)
 RECURSIVE BindAll(_, _)
 BindAll(locs, h) == IF locs = <<>> THEN h ELSE BindAll(Tail(locs), Bind(Head(locs), h))
-RECURSIVE FreeLevels(_, _, _)
-FreeLevels(S, locs, h) ==
+RECURSIVE FreeLevels(_, _, _, _)
+FreeLevels(S, locs, h, ok) ==
   IF locs = <<>> THEN S
-  ELSE LET S1 == FreeSeq(S, locs, h)
+  ELSE LET S1 == FreeSeq(S, locs, h, ok)
            st_ == SelectSeq(locs, Stacked)
            inner == [i \in 1..Len(st_) |-> LWraps[st_[i]]]
-       IN FreeLevels(S1, inner, BindAll(st_, h))
-Free(S, j) ==
+       IN FreeLevels(S1, inner, BindAll(st_, h), ok)
+FreeU(S, j, ok) ==
   LET a == S.alloc[j] IN
-  IF a.locs = <<>> THEN S ELSE FreeLevels(S, a.locs, ReqAt(j, a.dep, a.hwkey))
+  IF a.locs = <<>> THEN S ELSE FreeLevels(S, a.locs, ReqAt(j, a.dep, a.hwkey), ok)
+Free(S, j) == FreeU(S, j, TRUE)
 
 RemoveFirst(q, x) ==
   IF x \notin SeqSet(q) THEN q
@@ -217,8 +227,8 @@ ReqEn(S, j) == /\ S.gen[j] < MaxGen
                /\ S.gen[j] = 0 \/ S.alloc[j].status = "ROLLBACK"
 Returned(S, j) == S.gen[j] > 0 /\ S.sched[j][S.gen[j]]
 NextStatus(cur) ==
-  CASE cur = "FIREABLE" -> IF Engine = "engine" THEN {"RUNNING"} ELSE {"RUNNING", "CANCELLED", "FAILED"}
-    [] cur = "RUNNING"  -> Terminal \cup {"RECOVERY"}
+  CASE cur = "FIREABLE" -> IF Engine = "engine" THEN {"RUNNING"} ELSE {"RUNNING", "CANCELLED", "FAILED", "ROLLBACK"}
+    [] cur = "RUNNING"  -> Terminal \cup {"RECOVERY"} \cup (IF Engine = "engine" THEN {} ELSE {"ROLLBACK"})
     [] cur = "RECOVERY" -> {"ROLLBACK"}
     [] OTHER -> {}
 NotifyEn(S, j, s) ==
@@ -259,11 +269,21 @@ UsageDone ==
      /\ st' = Grant(NotifyTail(Free(st, j), j, s))
      /\ act' = [name |-> "UsageDone", j |-> j, s |-> s]
 
+\* failure of the usage measurement (fault of the connector at release time): the body goes on as coded -- the
+\* reservation is released with ZERO measured usage on every level, then ROLLBACK removal, notify_all
+UsageFail ==
+  /\ UsageFaults
+  /\ UseEn(st)
+  /\ LET h == st.lock  j == h[2]  s == h[3] IN
+     /\ st' = Grant(NotifyTail(FreeU(st, j, FALSE), j, s))
+     /\ act' = [name |-> "UsageFail", j |-> j, s |-> s]
+
 Init == st = Init0 /\ act = [name |-> "Init", j |-> None, s |-> None]
 Next == \/ \E j \in Jobs : Request(j)
         \/ \E j \in Jobs, s \in {"RUNNING", "COMPLETED", "FAILED", "CANCELLED", "RECOVERY", "ROLLBACK"} : Notify(j, s)
         \/ EvalDone
         \/ UsageDone
+        \/ UsageFail
 AnyEnabled(S) == \/ EvalEn(S) \/ UseEn(S) \/ \E j \in Jobs : ReqEn(S, j)
                  \/ \E j \in Jobs, s \in {"RUNNING", "COMPLETED", "FAILED", "CANCELLED", "RECOVERY", "ROLLBACK"} : NotifyEn(S, j, s)
 
